@@ -26,6 +26,7 @@ structure MachineOK (c : Ctx) (fm : List FirstSet) (m : Machine) : Prop where
       ∀ y ∈ transitionItems c (m.states.getD s []) X, y ∈ m.states.getD t' []
   hasKernel : ∀ t ∈ m.transitions, ∃ y ∈ m.states.getD t.to [], 1 ≤ y.dot
   tnodup : m.transitions.Nodup
+  inhabited : ∀ s, s < m.states.length → ∃ y, y ∈ m.states.getD s []
   distinct : ∀ s1 s2, s1 < m.states.length → s2 < m.states.length →
     SameCores (m.states.getD s1 []) (m.states.getD s2 []) → s1 = s2
   just : ∀ s, s < m.states.length → ∀ y ∈ m.states.getD s [], Deriv c fm m.start m.transitions s y
@@ -59,6 +60,11 @@ theorem machineOK_of_builder {c : Ctx} {fm : List FirstSet} {b : Builder} {m : M
       done := ?_
       hasKernel := ?_
       tnodup := Oset.Sorted.nodup iso.tsorted
+      inhabited := by
+        intro s hs'
+        obtain ⟨i, hi, rfl⟩ := iso.surj s hs'
+        rw [iso.state i hi]
+        exact inv.inhabited i hi
       distinct := by
         intro s1 s2 h1 h2 hsc
         obtain ⟨i1, hi1, rfl⟩ := iso.surj s1 h1
